@@ -35,8 +35,8 @@ base58_encodings = [
     (b'p2esk', 88, tb([9, 48, 57, 115, 171]), 56, 'p256_encrypted_secret_key'),
     (b'sppk', 55, tb([3, 254, 226, 86]), 33, 'secp256k1 public key'),
     (b'p2pk', 55, tb([3, 178, 139, 127]), 33, 'p256 public key'),
-    (b'SSp', 53, tb([38, 248, 136]), 33, 'secp256k1 scalar'),
-    (b'GSp', 53, tb([5, 92, 0]), 33, 'secp256k1 element'),
+    (b'SSp', 53, tb([38, 248, 136]), 32, 'secp256k1 scalar'),
+    (b'GSp', 54, tb([5, 92, 0]), 33, 'secp256k1 element'),
     (b'edsk', 98, tb([43, 246, 78, 7]), 64, 'ed25519 secret key'),
     (b'edsig', 99, tb([9, 245, 205, 134, 18]), 64, 'ed25519 signature'),
     (b'spsig', 99, tb([13, 115, 101, 19, 63]), 64, 'secp256k1 signature'),
